@@ -1,6 +1,16 @@
 import Pff.Props.RSSpec
-/-! Helper lemmas for the Reed–Solomon layer (C02, C11, C12): field laws of GF(2^8) from the
-tables, generator polynomial roots, encoders produce codewords, minimum distance, uniqueness. -/
-namespace Pff.RSProofs
+import Pff.Proofs.GFTables
+import Pff.Proofs.GF
+import Pff.Proofs.RSCore
+import Pff.Proofs.RSDist
+import Pff.Proofs.RSFacade
+import Pff.Proofs.RSDecode
+/-! Helper lemmas for the Reed–Solomon layer (C02, C11, C12) — aggregator.
 
-end Pff.RSProofs
+* `GFTables` : kernel-checked finite facts about the packed GF(2^8) tables
+* `GF`       : field laws of GF(2^8) from the table facts; the `Field` instance; the generator
+* `RSCore`   : Horner evaluation, generator polynomial roots, the three encoders compute remainders
+* `RSDist`   : minimum distance (Vandermonde), Hamming distance, uniqueness of the systematic parity
+* `RSFacade` : `ECCMan.encode` / `check` (padding, per-call k): accepts, detects, truncated parity
+* `RSDecode` : `ECCMan.decode` under contract W: uniqueness within capacity, exact decoding
+-/
